@@ -139,8 +139,39 @@ def run(ctx):
         ctx.violation("write-sinks", sp_file_line(main.term(units["Compile"]).get("sp")),
                       "the 2-byte conversions of the compile arm do not each feed exactly one write: %s" % {k: len(v) for k, v in conv_sinks.items()})
     h = [hh for hh, (body, l) in lps.items() if any(b in body for b in in_loop)]
+    # adaptor form of the word loop: `words.iter().try_for_each(|w| file.write_all(&w.to_be_bytes()))` - the closure is the loop body; it must
+    # convert once and write that once, and the iterator must be the whole word list
+    closure_loop = None
+    if not in_loop:
+        for b_, t_, c_ in main.calls():
+            if b_ not in region or not (c_ and re.search(r"Iterator>?::(try_for_each|for_each)$", c_)):
+                continue
+            ty0 = (t_.get("arg_tys") or [""])[0]
+            if not re.search(r"(slice::iter::Iter|vec::into_iter::IntoIter)<'?\w*,? ?u16", ty0) or re.search(r"adapters::(?!(rev|enumerate|peekable|cloned|copied|fuse|inspect)::)", ty0):
+                continue
+            if any(x_[0] == "call" and re.search(r"(::skip|::take|::filter|::step_by|::index|::get|::split_at)$", str(x_[1])) for x_ in expr_walk(main.expr(t_["args"][0], 12))):
+                continue
+            for cl_ in t_["f"].get("closures", []):
+                g_ = prog.fns.get(cl_[3:] if cl_.startswith("fn:") else cl_)
+                if g_ is None:
+                    continue
+                convs = [tt for bb, tt, cc in g_.calls() if cc and re.search(r"<impl u16>::to_(be|le|ne)_bytes$", cc)]
+                sinks_g = [tt for bb, tt, cc in g_.calls() if cc and SINK.search(cc)]
+                if len(convs) == 1 and (callee_of(convs[0]) or "").endswith("to_be_bytes") and len(sinks_g) == 1 and not kit.loops(g_) \
+                        and any(x_[0] == "call" and str(x_[1]).endswith("to_be_bytes") for x_ in expr_walk(g_.expr(sinks_g[0]["args"][1], 10))):
+                    closure_loop = b_
+    if closure_loop is not None:
+        in_loop = [closure_loop]
+        h = [closure_loop]
     ok = len(in_loop) == 1 and len(once) in (1, 2) and bool(h)
-    if ok:
+    if ok and closure_loop is not None:
+        hb = closure_loop
+        if len(once) == 2:
+            a, b2 = once
+            ok = a not in main.reachable(b2) and b2 not in main.reachable(a) and main.must_pass(units["Compile"], [hb], once)
+        else:
+            ok = main.dominates(once[0], hb)
+    elif ok:
         hb = min(h, key=lambda x: len(lps[x][0]))
         if staged and len(drains) == 1 and any(in_loop[0] in main.reachable(pb) or pb == in_loop[0] or in_loop[0] in lps[hb][0] and pb in lps[hb][0] for v in staged.values() for pb in v):
             hb = drains[0][0]          # the words reach the file in the drain loop; the origin must have been written before that one
